@@ -1196,4 +1196,6 @@ def run(model, R):
     # "a call the model rejects (... conflicting cells) raises": the conflict test behind union_update/intersection_update
     from . import c14
     R.guard('CONFLICTS', None, 'conflicting_pairs', c14.conflicting, model, R)
+    # 'no residue can reappear': copies and combinations own their containers (C14's freshness rules are a dependency)
+    R.guard('FRESH', None, 'freshness', c14.freshness, model, R)
     return __doc__.strip()
